@@ -466,11 +466,24 @@ namespace vh
       }
    }
 
+   // A control hook is normally handed the input; a changed library may hand it a bare position (the ambient of raise_nested), which
+   // must still produce a trace line rather than a harness that no longer builds.
+   template< typename In >
+   decltype( auto ) pos_of( const In& in )
+   {
+      if constexpr( std::is_same_v< In, pegtl::position > ) {
+         return ( in );
+      }
+      else {
+         return in.position();
+      }
+   }
+
    template< int Mark, typename In >
    void ev_m( const char* tag, int id, const In& in )
    {
       emit_m< Mark >( tag, id );
-      emit_pos( in.position() );
+      emit_pos( pos_of( in ) );
       g_out += '\n';
    }
 
